@@ -310,6 +310,9 @@ void prop(DP &dp, const ref::Bytes &sched, Ctx &ctx) {
 				size_t which = 0;
 				bool hit = false;
 				if (!accs.empty() && dp.chance(215)) { which = dp.pick((unsigned) accs.size()); p.dcc_address.addrl = accs[which]->addrl; p.dcc_address.addrh = accs[which]->addrh; hit = true; }
+				// a freely drawn address may happen to be a configured one (1 in 16384: found by the thorough tier)
+				for (size_t i = 0; i < accs.size() && !hit; i++)
+					if (accs[i]->addrl == p.dcc_address.addrl && accs[i]->addrh == p.dcc_address.addrh) { which = i; hit = true; }
 				p.data = dp.u8();
 				p.time = dp.u8();
 				t_bidib_node_address na = {0, 0, 0};
